@@ -18,7 +18,7 @@ ALPHA = 1e-9
 DIST_CELLS = [
     # name, model, proposal kwargs, trained, kind
     ("tg-constant-volume", "G2u", {}, True, "flow"),
-    ("tg-constant-volume-untrained", "G2u", {}, False, "flow"),
+    ("tg-constant-volume-brief-training", "G2u", {}, "brief", "flow"),
     ("tg-nonuniform-prior", "G2n", {}, True, "flow"),
     ("tg-worst-point-radius", "G2n", {"constant_volume_mode": False}, True, "flow"),
     ("tg-fixed-radius", "G2u", {"constant_volume_mode": False, "fixed_radius": 2.0}, True, "flow"),
@@ -33,11 +33,12 @@ DIST_CELLS = [
     ("latent-flow", "G2n", {"latent_prior": "flow", "constant_volume_mode": False}, True, "flow-untruncated"),
     ("rejection-uniform", "G2u", {}, False, "rejection"),
     ("rejection-nonuniform", "G2n", {}, False, "rejection"),
+    ("rejection-nonuniform-box-draws", "G2r", {}, False, "rejection"),
     ("analytic-nonuniform", "G2n", {}, False, "analytic"),
     ("analytic-uniform", "G4u", {}, False, "analytic"),
 ]
-QUICK_DIST = ["tg-constant-volume", "tg-constant-volume-untrained", "tg-nonuniform-prior", "tg-worst-point-radius", "nball", "accumulate-weights", "truncate-log-q",
-              "logit-reparam", "drawsize-200", "latent-gaussian", "rejection-nonuniform", "analytic-nonuniform"]
+QUICK_DIST = ["tg-constant-volume", "tg-constant-volume-brief-training", "tg-nonuniform-prior", "tg-worst-point-radius", "nball", "accumulate-weights", "truncate-log-q",
+              "logit-reparam", "drawsize-200", "latent-gaussian", "rejection-nonuniform", "rejection-nonuniform-box-draws", "analytic-nonuniform"]
 
 
 def ks2(a, b):
@@ -90,17 +91,16 @@ def dist_worker(case):
             return res
         kw = dict(case["kwargs"])
         prop = FlowProposal(model, output=out, poolsize=N, plot=False, flow_config=dict(TINY_FLOW, n_neurons=8),
-                            training_config=dict(max_epochs=30, patience=10), **kw)
+                            training_config=dict(max_epochs=30 if case["trained"] is True else 2, patience=10), **kw)
         prop.initialise()
         pr = model.sample_prior(4000, rng)
         pr["logP"] = model.raw_log_prior(pr)
         pr["logL"] = model.raw_log_likelihood(pr)
         live = pr[np.argsort(pr["logL"])][-1000:]
-        if case["trained"]:
-            prop.train(live, plot=False)
-        else:
-            prop.check_state(live)
-            prop.training_data = live
+        # trained = True: 30 epochs; "brief": 2 epochs (a poor flow: the property must hold for any proposal quality).  A completely untrained flow is
+        # not used: nflows' batch-norm layers start with zero running variance, the contour then maps to a region of width ~1e-4 which no finite
+        # brute-force reference can populate (inconclusive by construction).
+        prop.train(live, plot=False)
         batches = [0]
         orig = prop.draw_latent_prior
 
@@ -219,7 +219,7 @@ def main():
         chk.count("C09.ks_statistics", len(r["stats"]))
         for s in r["stats"]:
             margin = s["D"] / s["threshold"]
-            if (worst is None or margin > worst[0]) and not (c["kind"] == "flow-untruncated" and s["kind"] == "whole contour"):
+            if (worst is None or margin > worst[0]) and not (r.get("latent_mass_inside_contour", 0) >= 0.99 and s["kind"] == "whole contour"):
                 worst = (margin, c["name"], s)
         chk.case_done(ident=("dist", c["name"], c["rep"]), nontrivial=len(r["stats"]) > 0,
                       sample=dict(cell=small, pool_size=r.get("pool_size"), batches=r.get("batches"), reference_inside=r.get("ref_inside"), stats=r["stats"][:3])
